@@ -49,7 +49,8 @@ def str_of_int(p, n):
     if z3.is_int_value(n):
         return z3.StringVal(str(n.as_long()))
     t = pystr_int(n)
-    key = ('strint', str(t))
+    key = ('strint', t.get_id())
+    p.__dict__.setdefault('_keep', []).append(t)
     if key not in p.__dict__.setdefault('_facts', set()):
         p._facts.add(key)
         p.assume(is_int_text(t))
